@@ -50,6 +50,26 @@ Theorem C20_circulant_embedding : forall n (cf rf x : nat -> Z) i, 1 <= n -> i <
   = zsum n (fun k => (Tspec cf rf i k * x k)%Z).
 Proof. exact circ_toeplitz. Qed.
 
+(* zero padding of the circulant embedding (FFT length L, e.g. the next power of two): for ANY length L >= 2n - 1 the
+   vector [c ; 0 ... 0 ; reversed r[1:]] - the reversed row placed at the END, position L - d holding r[d] - still
+   reproduces the Toeplitz product; L = 2n - 1 is the unpadded embedding of the library *)
+Theorem C20_circulant_embedding_padded : forall n L (cf rf x : nat -> Z) i, 1 <= n -> 2 * n - 1 <= L -> i < n ->
+  zsum L (fun k => (crr_pad n L cf rf ((i + L - k) mod L)%nat * (if (k <? n)%nat then x k else 0))%Z)
+  = zsum n (fun k => (Tspec cf rf i k * x k)%Z).
+Proof. exact circ_toeplitz_padded. Qed.
+
+Theorem C20_circulant_embedding_padded_exact : forall n cf rf m, 1 <= n -> m < 2 * n - 1 ->
+  crr_pad n (2 * n - 1) cf rf m = crr n cf rf m.
+Proof. exact crr_pad_exact. Qed.
+
+(* ... and the padding is NOT harmless when the reversed row stays directly behind the column (positions n .. 2n-2):
+   witness n = 2, L = 4, c = [1,2], r = [1,3], x = [0,1], i = 0 (evaluated) *)
+Theorem C20_circulant_embedding_padded_row_at_n_refuted :
+  exists n L (cf rf x : nat -> Z) i, 1 <= n /\ 2 * n - 1 <= L /\ i < n /\
+  zsum L (fun k => (crr_pad_at_n n L cf rf ((i + L - k) mod L)%nat * (if (k <? n)%nat then x k else 0))%Z)
+  <> zsum n (fun k => (Tspec cf rf i k * x k)%Z).
+Proof. exact circ_toeplitz_padded_at_n_refuted. Qed.
+
 (* toeplitz_matmul(c, r, M), matrix right-hand side, ANY batch shapes tb of (c, r) and mb of M that broadcast to bc:
    out[b, i, j] = sum_k T_b[i, k] * M_b[k, j] with T_b the Toeplitz matrix of batch member b (broadcast) *)
 Theorem C20_toeplitz_matmul_matrix : forall vec_ok c r M n p tb mb bc,
